@@ -4,3 +4,33 @@ reg("C12", EX, "small-scope exhaustive enumeration of the real limiter functions
     "regimes of the intermediate products) is evaluated on the real xnum limiter functions and judged against the TVD-region, "
     "symmetry, oddness, homogeneity and phi(a,a)=a rules; scalars against arrays. The claim over 'all floats' is decided on the lattice only.",
     "values between lattice points are not explored; IEEE arithmetic of numpy elementwise operations", "DESIGN.md 3/C12")
+reg("C02", EX, "small-scope exhaustive enumeration: all ordered state pairs of a product alphabet through the real numflux functions",
+    "All ordered pairs (W_L,W_R) of a product alphabet (equal states, sonic and stagnation points, ratios up to 1e12) per model, "
+    "gamma/g/a, registered flux and 2D face direction are evaluated on the real numflux and judged for consistency, mirror symmetry "
+    "(parity per component) and upwinding on the supercritical sub-lattice whose regime an independent Roe average decides; "
+    "a branch census (sL>=0 / sL<0<sR / sR<=0, ties) shows the alphabet is not vacuous.",
+    "states between alphabet letters are not explored; tolerance 64 eps x rho_max x s_max^k", "DESIGN.md 3/C02")
+reg("C16", EX, "small-scope exhaustive enumeration of (interior state, parameters, side, gamma) through namedBC and the modeldisc dispatch",
+    "Every boundary-condition name of the 1D and 2D Euler models, shallow water and 'dirichlet' of all six models is evaluated on "
+    "every combination of an interior-state alphabet, parameter sets and sides (four sides x eight flow angles in 2D), directly and "
+    "through the boundary faces of modeldisc.rhs for all ordered pairs (all 5^4 side assignments in 2D) of conditions; the returned "
+    "states are judged against independent isentropic, characteristic and Rankine-Hugoniot relations, wall fluxes for every registered flux.",
+    "alphabet lattice only; regime membership decided by the reference side; outsub_nrcbc invariant read as the one constant across the outgoing wave",
+    "DESIGN.md 3/C16")
+reg("C17", EX, "small-scope exhaustive enumeration of states x gamma x models x every name of list_var()",
+    "Round trip prim->cons->prim and every registered variable name are evaluated through field.phydata on a product alphabet "
+    "(12 decades of density/pressure, Mach 0..30, 8 directions in 2D, 4 gammas, 3 section laws) and compared with the definitions of "
+    "the property computed from the primitive state; one value per cell for scalar names.",
+    "alphabet lattice only; tolerance 32 eps x (1+gamma M^2); |mach| compared (1D returns signed u/a, asserted by the pinned suite)", "DESIGN.md 3/C17")
+reg("C18", EX, "small-scope exhaustive enumeration of states x meshes x CFL x models; explicit enumeration of driver runs for the use of the step",
+    "calc_timestep is compared on a product alphabet with the closed form and, independently, with CFL*h over the spectral radius of a "
+    "central-difference Jacobian of the model's own consistent flux; positivity, bitwise proportionality to CFL and to the cell size, "
+    "locality under all single-cell substitutions on all assignments to n<=3 cells, dx*dy/(dx+dy) in 2D; for every integrator class the "
+    "time increments of solve equal min dt(Q_k) and the dtlocal directive equals a real step with the per-cell array.",
+    "alphabet lattice only; numerical spectral radius accurate to 1e-7 (threshold 1e-5); zero-speed Burgers cells accept +inf", "DESIGN.md 3/C18")
+reg("C20", EX, "exhaustive enumeration of a lattice of mesh-constructor arguments",
+    "Every argument combination of a lattice (ncell 1..12,50,101; 5 lengths over 9 decades; 4 origins; 5 ratios x 5 zone proportions; "
+    "5 morphing functions; nx,ny 1..5 x 3 aspect ratios) is built with the real constructors and checked as a partition (faces, "
+    "end points, midpoints, volumes, weighted averages, zone ratio) and, in 2D, against boundary-face sets, orientations and normals "
+    "recomputed from the row-wise numbering.",
+    "argument lattice only; morphing functions strictly increasing", "DESIGN.md 3/C20")
